@@ -60,10 +60,10 @@ class Session:
         self.app.close()
 
     # ------------------------------------------------------------------ TRXC
-    def cmd(self, i, verb, args, src=None, check_state=True):
+    def cmd(self, i, verb, args, src=None, check_state=True, raw=None):
         t_app = self.app.trx[i]
         text = "CMD " + " ".join([verb] + list(args))
-        out = self.app.ctrl(t_app, text, src=src)
+        out = self.app.ctrl(t_app, text, src=src, raw=raw)
         status, results, strict = self.model.command(i, verb, list(args))
         self.stats["cmds"] += 1
         mt = self.model.trx[i]
